@@ -137,8 +137,13 @@ Section Take.
           ({| tk_taken := t'; tk_tb := tk_tb s; tk_end := tk_end s |}, [],
            ACall (CDn 0 (DD v)) (TkAfterData t'))
         else (s, [], ARet)
-    | IDn 0 (DE e) => (s, [], ACall (CDn 0 (DE e)) TkDone)
-    | IDn 0 DT => (s, [], ACall (CDn 0 DT) TkDone)
+    (* the end of the source: [end.swap(true)] - forwarded by whoever finds the flag unset *)
+    | IDn 0 (DE e) =>
+        if tk_end s then (s, [], ARet)
+        else ({| tk_taken := tk_taken s; tk_tb := tk_tb s; tk_end := true |}, [], ACall (CDn 0 (DE e)) TkDone)
+    | IDn 0 DT =>
+        if tk_end s then (s, [], ARet)
+        else ({| tk_taken := tk_taken s; tk_tb := tk_tb s; tk_end := true |}, [], ACall (CDn 0 DT) TkDone)
     | _ => (s, [], ARet)
     end.
   Definition take_resume (k : take_fr) (s : take_st) : take_st * list obs * act take_fr :=
